@@ -75,7 +75,7 @@ def lemmas(tier):
 	pre = [z3.ULE(s, u), u != 0, z3.ULT(u, 1 << 24)]
 	out.append(_ob('fp/one-iff-s-equals-u[<2^24]', pre, (d == z3.FPVal(1.0, F)) == (s == u)))
 	# strict decrease when a common new k-mer is added: F(s, u+1) < F(s, u) for s > 0
-	kbits = 9 if tier == 'quick' else 12
+	kbits = 8 if tier == 'quick' else 12
 	out.append(_ob(f'fp/strict-decrease/bit-precise[u+1<=2^{kbits}]', [z3.ULE(s, u), s != 0, z3.ULT(u, 1 << kbits)], z3.fpLT(d1, d)))
 	# ... in the standard model of rounding for every u with 2u+1 < 2^24
 	rs, ru, e0, e1 = z3.Reals('rs ru e0 e1')
